@@ -257,6 +257,9 @@ package ociclient
 //@   ensures[labelled-with-its-place-in-the-upload] result == nil && !(commitDigest == "" && len(buf) + old(len(w.chunk)) == 0) ==>
 //@     req.ContentLength == old(len(w.chunk)) + len(buf) &&
 //@     hdr(req.Header, "Content-Range") == ocirequest.RangeString(old(w.flushed), old(w.flushed) + old(len(w.chunk)) + len(buf))
+// (what goes out is what was buffered followed by the new bytes, in that order)
+//@   ensures[sends-the-buffered-bytes-then-the-new-ones] result == nil && !(commitDigest == "" && len(buf) + old(len(w.chunk)) == 0) ==>
+//@     bodyBytes(req) == old(string(w.chunk)) + string(buf)
 //@   ensures[acknowledged-means-flushed] result == nil && !(commitDigest == "" && len(buf) + old(len(w.chunk)) == 0) ==>
 //@     w.flushed == old(w.flushed) + old(len(w.chunk)) + len(buf) && len(w.chunk) == 0
 //@   ensures[failure-keeps-the-books] result != nil ==> w.flushed == old(w.flushed) && string(w.chunk) == old(string(w.chunk))
